@@ -1,4 +1,6 @@
 import BctVerif.Lemmas.MeasuresAlg
+import BctVerif.Lemmas.MeasuresPermList
+import Mathlib.Data.List.Sort
 /-!
 # Equivariance of rich club (binary) and assortativity
 -/
@@ -26,6 +28,62 @@ theorem richClubBu_perm (A : AMat Int n) : richClubBu (permA σ A) = richClubBu 
 
 theorem richClubBd_perm (A : AMat Int n) : richClubBd (permA σ A) = richClubBd A := by
   unfold richClubBd; rw [degTotal_perm, richClub_perm]
+
+/-! ### weighted rich club: the ranking of all weights is a sorted list, the same for every numbering -/
+
+theorem flatEntries_perm (A : AMat Int n) : (flatEntries (permA σ A)).Perm (flatEntries A) := by
+  unfold flatEntries
+  have h1 : ((List.finRange n).flatMap fun i => (List.finRange n).map fun j => (permA σ A).get i j) =
+      ((List.finRange n).map σ).flatMap fun i => ((List.finRange n).map σ).map fun j => A.get i j := by
+    rw [List.flatMap_map]
+    apply List.flatMap_congr; intro i _
+    rw [List.map_map]; apply List.map_congr_left; intro j _; simp
+  rw [h1]
+  have hp := Equiv.Perm.map_finRange_perm σ
+  refine (List.Perm.flatMap_left _ (fun i _ => hp.map _)).trans ?_
+  exact hp.flatMap_right _
+
+theorem sortDesc_perm {l l' : List Int} (p : l.Perm l') : sortDesc l = sortDesc l' := by
+  unfold sortDesc
+  have tr : ∀ a b c : Int, decide (b ≤ a) = true → decide (c ≤ b) = true → decide (c ≤ a) = true := by
+    intro a b c h1 h2; simp only [decide_eq_true_eq] at *; omega
+  have tot : ∀ a b : Int, (decide (b ≤ a) || decide (a ≤ b)) = true := by
+    intro a b; simp only [Bool.or_eq_true, decide_eq_true_eq]; omega
+  have s1 := List.pairwise_mergeSort tr tot l
+  have s2 := List.pairwise_mergeSort tr tot l'
+  have pp : (l.mergeSort fun a b => decide (b ≤ a)).Perm (l'.mergeSort fun a b => decide (b ≤ a)) :=
+    ((List.mergeSort_perm l _).trans p).trans (List.mergeSort_perm l' _).symm
+  exact List.Perm.eq_of_pairwise (fun a b _ _ h1 h2 => by simp only [decide_eq_true_eq] at h1 h2; omega) s1 s2 pp
+
+theorem richLevelW_perm (A : AMat Int n) (deg : Vector Int n) (wr : List Int) (k : Nat) :
+    richLevelW (permA σ A) (permVec σ deg) wr k = richLevelW A deg wr k := by
+  simp only [richLevelW, permVec_get, permA_get]
+  have h1 : (fany fun i => decide (vget deg (σ i) < (k : Int) + 1)) = fany fun i => decide (vget deg i < (k : Int) + 1) :=
+    fany_congr_perm σ _ _ (fun _ => rfl)
+  have h2 : (fsum fun i => fsum fun j => if vget deg (σ i) ≥ (k : Int) + 1 ∧ vget deg (σ j) ≥ (k : Int) + 1 then A.get (σ i) (σ j) else 0) =
+      fsum fun i => fsum fun j => if vget deg i ≥ (k : Int) + 1 ∧ vget deg j ≥ (k : Int) + 1 then A.get i j else 0 :=
+    fsum2_congr_perm σ _ _ (fun _ _ => rfl)
+  have h3 : (fsum fun i => fsum fun j => if vget deg (σ i) ≥ (k : Int) + 1 ∧ vget deg (σ j) ≥ (k : Int) + 1 ∧ A.get (σ i) (σ j) ≠ 0 then (1 : Nat) else 0) =
+      fsum fun i => fsum fun j => if vget deg i ≥ (k : Int) + 1 ∧ vget deg j ≥ (k : Int) + 1 ∧ A.get i j ≠ 0 then (1 : Nat) else 0 :=
+    fsum2_congr_perm σ _ _ (fun _ _ => rfl)
+  rw [h1, h2, h3]
+
+theorem richClubW_perm (A : AMat Int n) (deg : Vector Int n) :
+    richClubW (permA σ A) (permVec σ deg) = richClubW A deg := by
+  unfold richClubW
+  rw [sortDesc_perm (flatEntries_perm σ A)]
+  have hm : (fmax fun i => (vget (permVec σ deg) i).toNat) = fmax fun i => (vget deg i).toNat :=
+    fmax_congr_perm σ _ _ (fun i => by simp)
+  rw [hm]
+  apply List.map_congr_left
+  intro k _
+  exact richLevelW_perm σ A deg _ k
+
+theorem richClubWu_perm (A : AMat Int n) : richClubWu (permA σ A) = richClubWu A := by
+  unfold richClubWu; rw [degreesUnd_perm, richClubW_perm]
+
+theorem richClubWd_perm (A : AMat Int n) : richClubWd (permA σ A) = richClubWd A := by
+  unfold richClubWd; rw [degTotal_perm, richClubW_perm]
 
 /-! ### assortativity -/
 
